@@ -482,6 +482,8 @@ def run(chk, replay=None):
                 unms.append(u)
             ev.case(("same-bytes", setname, bytes(b)))
     session(chk)
+    from .c13_changer import changer
+    changer(chk)
     # ---- TLC judges ---------------------------------------------------------------------------------------
     vs, st = tlc.judge_traces("Trace_Facade", "Trace_Facade.cfg", calls, name="c13trf")
     ev.judged("Trace_Facade", st, len(calls))
